@@ -2,6 +2,7 @@
 import SFModel.Blocks
 import SFModel.SliceLemmas
 import SFModel.Props.C04
+import SFModel.Props.C04Asc
 
 set_option linter.unusedSimpArgs false
 
@@ -1917,6 +1918,64 @@ theorem TB.key_atgts (tb : TB α) (hwf : tb.WF) (ck : Key) (cps : List Nat)
     simp only [Key.positions] at hck
     simp only [keyToBlockSlices, index_length, hck, Bool.false_eq_true, if_false, h1]
 
+/-- a negative-step slice lists its positions strictly descending: reversed they are ascending -/
+theorem slice_positions_reverse_sorted {s : PySlice} {n : Nat} {ps : List Nat} {st : Int}
+    (h : s.positions n = .ok ps) (hs : s.step = some st) (hst : st < 0) :
+    ps.reverse.Pairwise (· < ·) := by
+  cases hi : s.indices n with
+  | error e => simp [PySlice.positions, hi] at h
+  | ok v =>
+    obtain ⟨a, b, c⟩ := v
+    have hc : c < 0 := by
+      unfold PySlice.indices at hi
+      simp only at hi
+      split at hi
+      · cases hi
+      · simp only [Except.ok.injEq, Prod.mk.injEq] at hi
+        rw [← hi.2.2, hs]
+        exact hst
+    rw [List.pairwise_reverse]
+    exact (C04.slice_positions_strict h hi).2 hc
+
+/-- the targets `_key_to_block_slices(key, retain_key_order=False)` yields for a negative-step slice:
+    the code first turns it into the ascending slice (`slice_to_ascending_slice`, as repaired), which
+    addresses the same positions reversed (`C04.ascending_same_positions`), so the targets are those of
+    the ascending positions and cover exactly the addressed columns. -/
+theorem TB.neg_slice_atgts (tb : TB α) (s : PySlice) (st : Int) (cps : List Nat)
+    (hs : s.step = some st) (hst : st < 0) (hpos : s.positions tb.ncols = .ok cps) :
+    ∃ pairs atgts, keyToBlockSlices tb (.slice s) false = .ok pairs ∧ KeyATgts tb pairs cps atgts := by
+  obtain ⟨s', hasc⟩ := C04.ascending_total s tb.ncols cps hpos
+  have hpos' := C04.ascending_same_positions s s' tb.ncols cps hasc hpos
+  simp only [hs, Option.getD_some, if_pos hst] at hpos'
+  obtain ⟨pairs, atgts, h1, h2⟩ := tb.sorted_atgts cps cps.reverse
+    (slice_positions_reverse_sorted hpos hs hst) (fun _ => List.mem_reverse)
+  refine ⟨pairs, atgts, ?_, h2⟩
+  simp only [keyToBlockSlices, Bool.false_eq_true, if_false, hasc, pyListSlice, index_length, hpos', h1]
+
+/-- the targets `_key_to_block_slices(key, retain_key_order=False)` yields, for EVERY key
+    (`key_atgts` without the ascending-safe hypothesis) -/
+theorem TB.key_atgts_all (tb : TB α) (hwf : tb.WF) (ck : Key) (cps : List Nat)
+    (hck : ck.positions tb.ncols = .ok cps) :
+    ∃ pairs atgts, keyToBlockSlices tb ck false = .ok pairs ∧ KeyATgts tb pairs cps atgts := by
+  by_cases hsafe : ∀ s, ck = .slice s → s.step = none ∨ ∃ st, s.step = some st ∧ 0 < st
+  · exact tb.key_atgts hwf ck cps hsafe hck
+  · cases ck with
+    | slice s =>
+      have hpos : s.positions tb.ncols = .ok cps := hck
+      cases hstep : s.step with
+      | none => exact absurd (fun s' h' => by cases h'; exact Or.inl hstep) hsafe
+      | some st =>
+        by_cases hp : 0 < st
+        · exact absurd (fun s' h' => by cases h'; exact Or.inr ⟨st, hstep, hp⟩) hsafe
+        · by_cases h0 : st = 0
+          · subst h0
+            simp [PySlice.positions, PySlice.indices, hstep] at hpos
+          · exact tb.neg_slice_atgts s st cps hstep (by omega) hpos
+    | all => exact absurd (fun s h' => by cases h') hsafe
+    | int i => exact absurd (fun s h' => by cases h') hsafe
+    | list is => exact absurd (fun s h' => by cases h') hsafe
+    | mask bs => exact absurd (fun s h' => by cases h') hsafe
+
 theorem colsDT_length (bs : List (Block α)) : (colsDT bs).length = (bs.map Block.width).sum := by
   induction bs with
   | nil => rfl
@@ -1982,6 +2041,25 @@ theorem TB.mapBlocks_refines (tb : TB α) (hwf : tb.WF) (ck : Key) (cps : List N
       colsDT out = (colsDT tb.blocks).mapIdx
         (fun j x => if j ∈ cps then (if skipT x.1 then x else (fd x.1, fc x.2)) else x) := by
   obtain ⟨pairs, atgts, hk, ⟨rfl, hok, hsorted, hcover⟩⟩ := tb.key_atgts hwf ck cps hsafe hck
+  obtain ⟨out, hout, hspec⟩ := mapBlocksGo_spec hf skip skipT hskip (tb.covOf cps) 0 tb.blocks atgts
+    (fun t ht => by
+      obtain ⟨h1, b, h2, h3⟩ := hok t ht
+      exact ⟨h1, Nat.zero_le _, b, by simpa using h2, h3⟩)
+    hsorted
+    (fun p _ => by rw [tb.covOf_iff, hcover p])
+  refine ⟨_, out, hk, hout, ?_⟩
+  rw [hspec, tb.mapSpec_eq_mapIdx]
+
+/-- `mapBlocks_refines` for EVERY key (a negative-step slice included) -/
+theorem TB.mapBlocks_refines_all (tb : TB α) (hwf : tb.WF) (ck : Key) (cps : List Nat)
+    (hck : ck.positions tb.ncols = .ok cps)
+    {f : Block α → Block α} {fd fc} (hf : ColFn f fd fc) (skip : Block α → Bool)
+    (skipT : DT → Bool) (hskip : ∀ b, skip b = skipT b.dt) :
+    ∃ pairs out, keyToBlockSlices tb ck false = .ok pairs ∧
+      mapBlocksGo f skip 0 tb.blocks pairs = some out ∧
+      colsDT out = (colsDT tb.blocks).mapIdx
+        (fun j x => if j ∈ cps then (if skipT x.1 then x else (fd x.1, fc x.2)) else x) := by
+  obtain ⟨pairs, atgts, hk, ⟨rfl, hok, hsorted, hcover⟩⟩ := tb.key_atgts_all hwf ck cps hck
   obtain ⟨out, hout, hspec⟩ := mapBlocksGo_spec hf skip skipT hskip (tb.covOf cps) 0 tb.blocks atgts
     (fun t ht => by
       obtain ⟨h1, b, h2, h3⟩ := hok t ht
